@@ -22,8 +22,15 @@ PROP = dict(
     assumptions=["same binary and machine across compared processes", "cross-process runs use the same seed and compare full impl output"],
 )
 
+PROP["level_text"] += (" Props/C02b.lean: the tie rule of the typo fallback, whose order comes from the fuzzy library's sort.Stable with a non-strict "
+                       "Less (the library contract says nothing about ties there): with Go's algorithm transliterated (Model/GoSort.lean) the answer is "
+                       "proved to list equal library scores in reverse database order, and that order is proved to be the unique such permutation "
+                       "(fallback_ties_fixed_rule, fuzzy_order_unique); tie: gosort correspondence domain (C07) and the compared fz line of every search case.")
+
 THEOREMS = ["Wtf.C02." + t for t in ("sites_clean", "no_other_nondeterminism", "sorts_stable", "sorted_enumeration_unique",
-                                     "sort_ints_sched_indep", "collect_sched_indep", "search_function")]
+                                     "sort_ints_sched_indep", "collect_sched_indep", "search_function",
+                                     # Props/C02b.lean: the tie rule of the typo fallback (model of Go's sort.Stable, Model/GoSort.lean)
+                                     "fallback_ties_fixed_rule", "fuzzy_order_unique")]
 
 
 def nontrivial(tags, ops, impl):
@@ -38,7 +45,7 @@ def run(ctx):
     for s in ctx.facts.get("sites", []) or []:
         if s.get("Class") == "sensitive":
             ctx.log("order-sensitive site: %s %s:%s %s" % (s.get("Func"), s.get("File"), s.get("Line"), s.get("Why")))
-    ctx.stage_prove(THEOREMS)
+    ctx.stage_prove(THEOREMS, extra_targets=["WtfModel.Props.C02b"])
     if not ctx.stage_build():
         return
     quick = ctx.tier == "quick"
